@@ -52,6 +52,7 @@ def windows(run):
     w += ['win 1 %d 1' % b for b in range(256)]
     w += ['win 2 %d 1' % b for b in range(256)]          # all 65 536 two-byte strings
     w += ['win 3 %d 0' % b for b in range(256)]          # 256 x 48 x 48
+    w += ['win 4 %d 0' % b for b in (0xc2, 0xe0, 0xed, 0xef, 0xf0, 0xf4, 0xf5)]   # four-byte strings behind the boundary lead bytes (48^3 each)
     if not quick:
         w += ['win 3 %d 1' % b for b in range(256)]      # all 16.8 M three-byte strings
         w += ['win 4 %d 0' % b for b in range(128, 256)]  # 128 x 48^3 four-byte strings, non-ASCII lead
